@@ -223,6 +223,18 @@ theorem tilted_field_period_energy (t : TField ℂ ℝ) (m n : ℕ) (hm : t.fld.
   · simp only [RealLike.ofInt, cc]; push_cast; ring
   · simp only [RealLike.ofInt, cc]; push_cast; ring
 
+/-- **fields sharing one tilt keep their energy over the displaced period**, any number of fields on the wavefront canvas (a tilted
+segmented pupil): with propagation shape one period `K × L` and an output extent containing the displaced propagation extent,
+the intensity `|Σ fields|²` of the C02 model summed over that extent equals the input power `Σ|total field|²`. -/
+theorem common_tilt_period_energy (fs : List (Fld ℂ)) (S0 S1 K L : ℕ) (hfit : ∀ f ∈ fs, Fits f S0 S1) (hK : 0 < K) (hL : 0 < L)
+    (hS0 : S0 ≤ K) (hS1 : S1 ≤ L) (fix0 fix1 : ℤ) (sub0 sub1 : ℝ) (oe : Extent) (hoe : oe.rmin ≤ oe.rmax ∧ oe.cmin ≤ oe.cmax)
+    (hcover : ∀ r c, (propExtent K L fix0 fix1).inb r c = true → oe.inb r c = true) :
+    ∑ u ∈ range K, ∑ v ∈ range L, Complex.normSq
+        ((fs.map fun f => embO (propagateField (⟨f, fix0, fix1, sub0, sub1⟩ : TField ℂ ℝ) (1 / (K : ℝ)) (1 / (L : ℝ)) oe K L)
+          (-((K : ℤ) / 2) + fix0 + u) (-((L : ℤ) / 2) + fix1 + v)).sum)
+      = arrSum (intensity (R := ℝ) (embedAll fs S0 S1)) :=
+  common_tilt_period_energy_aux fs S0 S1 K L hfit hK hL hS0 hS1 fix0 fix1 sub0 sub1 oe hoe hcover
+
 /-- **the `fft2` contract is the textbook unitary DFT.** `fft2ortho` (written with the shared `dft2` so that the FFT path
 theorem can reuse its algebra) is entry by entry `(1/√(mn)) Σ_a Σ_b x[a,b]·exp(−2πi·a·k/m)·exp(−2πi·b·l/n)`, origin at index 0 -/
 theorem fft2_contract_is_textbook (x : Arr ℂ) (m n : ℕ) (hm : x.s0 = m) (hn : x.s1 = n) (k l : ℤ) :
